@@ -265,6 +265,24 @@ var Headers = []string{"", "CVSS:3.0/", "CVSS:3.1/", "CVSS:4.0/", "CVSS:4.0", "C
 	"cvss:3.1/", "cvss:4.0/", "CVSS:3./", "CVSS:3/", "CVSS:4/", "CVSS:/", "CVSS:31/", "CVSS:3.10/", "CVSS:4.00/", " CVSS:3.1/", "CVSS:3.1/ ", "CVSS:3.1//", "CVSS:4.0//",
 	"CVSS:3.0/CVSS:3.1/", "CVSS:3.1/CVSS:3.0/", "CVSS:4.0/CVSS:4.0/", "CVSS:1.0/", "CVSS;3.1/", "CVSS:3,1/", "CVSS3.1/", "VSS:3.1/", "\tCVSS:4.0/", "/", "//"}
 
+func init() {
+	// every proper truncation of every real header, with and without a trailing slash
+	seen := map[string]bool{}
+	for _, h := range Headers {
+		seen[h] = true
+	}
+	for _, h := range []string{"CVSS:3.0/", "CVSS:3.1/", "CVSS:4.0/"} {
+		for k := 1; k < len(h); k++ {
+			for _, t := range []string{h[:k], h[:k] + "/"} {
+				if !seen[t] {
+					seen[t] = true
+					Headers = append(Headers, t)
+				}
+			}
+		}
+	}
+}
+
 // SplitElems splits a vector of version v into header and elements.
 func SplitElems(v *spec.Version, s string) (hdr string, elems []string) {
 	body := s
